@@ -46,6 +46,9 @@ type Resp struct {
 	// does not carry it): the proxy itself adds the line to the head it writes
 	// and closes the connection after the response.
 	ReqClose bool `json:"req_close,omitempty"`
+	// LClose: Listener.Close is called (as Proxy.Serve does at shutdown) while
+	// this response still has writes ahead; it must be delivered all the same.
+	LClose bool `json:"lclose,omitempty"`
 }
 
 // Lane is the responses one connection writes inside a parallel group.
@@ -61,6 +64,9 @@ type Step struct {
 	Conn int     `json:"conn,omitempty"`
 	R    *Resp   `json:"r,omitempty"`
 	Par  []Lane  `json:"par,omitempty"`
+	// post: the document arrives slowly; the connections listed are opened (and
+	// accepted) after the request has begun and before its body is complete
+	During []int `json:"during,omitempty"`
 	// open, conn level: the shaped connection wraps a connection whose Close
 	// closes it and then reports an error (as tls.Conn.Close does when the
 	// close_notify alert cannot be sent any more)
@@ -246,6 +252,7 @@ type world struct {
 	rejected int // shapes named by rejected documents
 	progress int64
 	abort    bool // writers are stuck holding the shape locks: nothing more can be done with this listener
+	lclosed  int32 // Listener.Close has been called: no further connections
 }
 
 // wire reports whether a real proxy writes the responses (e2e, mitm).
@@ -377,7 +384,7 @@ func (w *world) failf(sig, format string, args ...interface{}) { w.v.Addf(sig, f
 
 // ---------------------------------------------------------------- steps
 
-func (w *world) post(cfg Config) {
+func (w *world) post(cfg Config, during []int) {
 	var old []*trafficshape.Bucket
 	old = w.shapeBuckets()
 	type listenerDefaults struct {
@@ -394,8 +401,34 @@ func (w *world) post(cfg Config) {
 	}
 	before := snap()
 	rw := httptest.NewRecorder()
-	req, _ := http.NewRequest("POST", "http://martian.proxy/shape-traffic", bytes.NewReader(cfg.JSON()))
-	w.h.ServeHTTP(rw, req)
+	if len(during) == 0 {
+		req, _ := http.NewRequest("POST", "http://martian.proxy/shape-traffic", bytes.NewReader(cfg.JSON()))
+		w.h.ServeHTTP(rw, req)
+	} else {
+		// slow upload: the handler has the request and waits for the rest of its
+		// body while connections are accepted; they predate the configuration
+		doc := cfg.JSON()
+		pr, pw := io.Pipe()
+		req, _ := http.NewRequest("POST", "http://martian.proxy/shape-traffic", pr)
+		served := make(chan struct{})
+		go func() { defer close(served); w.h.ServeHTTP(rw, req) }()
+		half := len(doc) / 2
+		pw.Write(doc[:half]) // returns once the handler has consumed it
+		time.Sleep(time.Millisecond)
+		for _, id := range during {
+			w.open(id, false)
+		}
+		time.Sleep(time.Millisecond)
+		pw.Write(doc[half:])
+		pw.Close()
+		select {
+		case <-served:
+		case <-time.After(w.T):
+			w.failf("C18/config/slow-upload/handler-stuck-timeout", "the handler did not answer within %v after the body was complete", w.T)
+			w.abort = true
+			return
+		}
+	}
 	if after := snap(); rw.Code != 200 && after != before && !blackBoxOnly {
 		w.failf("C18/config/rejected/listener-defaults-changed", "a document answered %d changed the listener's defaults (Defaults, Latency, ReadBitrate, WriteBitrate) from %+v to %+v: %s", rw.Code, before, after, trunc(cfg.JSON(), 400))
 	}
@@ -427,6 +460,9 @@ func (w *world) post(cfg Config) {
 
 func (w *world) open(id int, faulty bool) {
 	if _, dup := w.conns[id]; dup {
+		return
+	}
+	if atomic.LoadInt32(&w.lclosed) != 0 {
 		return
 	}
 	var addr string
@@ -633,6 +669,9 @@ func laneWorker(w *world, wc *wconn, rs []Resp, seqs []int, out *[]*obs, id *int
 			}
 			wrote, err := wc.ts.Write(msg[pos:end])
 			atomic.AddInt64(&w.progress, 1)
+			if r.LClose && end < len(msg) && atomic.CompareAndSwapInt32(&w.lclosed, 0, 1) {
+				w.tsl.Close() // the rest of this response is still to be written
+			}
 			if wrote < 0 || wrote > end-pos {
 				o.short = fmt.Sprintf("Write of %d bytes returned n=%d", end-pos, wrote)
 				break
@@ -1355,6 +1394,9 @@ func (w *world) respE2E(wc *wconn, r Resp) {
 		return
 	}
 	o.H = len(head)
+	if r.LClose && atomic.CompareAndSwapInt32(&w.lclosed, 0, 1) {
+		w.tsl.Close() // what Proxy.Serve does when the proxy shuts down; exchanges in flight finish
+	}
 	lines := strings.Split(string(head), "\r\n")
 	wantStatus := "200"
 	if r.Start > 0 || r.P206 || r.Start < 0 {
@@ -1430,6 +1472,68 @@ func (w *world) respE2E(wc *wconn, r Resp) {
 		wc.dead = true // the proxy closes after this response
 	}
 	w.evaluate([]*obs{o})
+}
+
+// tunnelE2E sends CONNECT on a connection that has served exchanges before and
+// fetches a response through the tunnel: nothing of it matches any shape, every
+// byte must arrive.
+func (w *world) tunnelE2E(id int, r Resp) {
+	wc := w.conns[id]
+	if wc == nil || wc.dead {
+		return
+	}
+	w.seq++
+	path := fmt.Sprintf("/t/r%d", w.seq)
+	r.Start, r.P206, r.Chunked, r.Star = 0, false, false, false
+	raw := originResponse(r)
+	w.omu.Lock()
+	w.script[path] = raw
+	w.omu.Unlock()
+	wc.dead = true // a tunnel is the last thing a connection does
+	shape := "tunnel-on-fresh-connection"
+	if wc.wrote {
+		shape = "tunnel-after-exchanges"
+	}
+	fail := func(class, format string, args ...interface{}) {
+		w.failf("C18/e2e/"+shape+"/"+class, format, args...)
+	}
+	wc.cl.SetWriteDeadline(time.Now().Add(w.T))
+	fmt.Fprintf(wc.cl, "CONNECT %s:80 HTTP/1.1\r\nHost: %s:80\r\n\r\n", host, host)
+	var head []byte
+	kit.Eventually(w.T, func() bool {
+		n, ended := wc.st.state()
+		b := wc.st.slice(wc.consumed, n)
+		if i := bytes.Index(b, []byte("\r\n\r\n")); i >= 0 {
+			head = b[:i+4]
+			return true
+		}
+		return ended
+	})
+	if head == nil || !bytes.HasPrefix(head, []byte("HTTP/1.1 200")) {
+		n, ended := wc.st.state()
+		class := "connect-not-answered-timeout"
+		if ended {
+			class = "connect-answer-cut"
+		}
+		fail(class, "CONNECT got %q (%d bytes, connection ended: %v)", trunc(wc.st.slice(wc.consumed, n), 80), n-wc.consumed, ended)
+		return
+	}
+	wc.consumed += len(head)
+	fmt.Fprintf(wc.cl, "GET %s HTTP/1.1\r\nHost: %s\r\n\r\n", path, host)
+	want := wc.consumed + len(raw)
+	if !wc.st.waitLen(want, w.T) {
+		n, ended := wc.st.state()
+		class := "tunnel-bytes-missing-timeout"
+		if ended {
+			class = "tunnel-cut"
+		}
+		fail(class, "%d of the %d bytes the target sent through the tunnel arrived (connection ended: %v); the connection had served %d bytes of exchanges before", n-wc.consumed, len(raw), ended, wc.consumed-len(head))
+		return
+	}
+	if got := wc.st.slice(wc.consumed, want); !bytes.Equal(got, raw) {
+		fail("tunnel-bytes-differ", "tunnel bytes differ: %s", kit.Diff(raw, got))
+	}
+	wc.consumed = want
 }
 
 func minInt(a, b int) int {
@@ -1527,7 +1631,11 @@ func runOnce(c Case, T time.Duration) kit.Verdict {
 		switch st.Op {
 		case "post":
 			if st.Cfg != nil {
-				w.post(*st.Cfg)
+				w.post(*st.Cfg, st.During)
+			}
+		case "tunnel":
+			if st.R != nil && w.level == "e2e" {
+				w.tunnelE2E(st.Conn, *st.R)
 			}
 		case "open":
 			w.open(st.Conn, st.Faulty && w.level == "conn")
